@@ -412,7 +412,9 @@ def _innermost(e):
     return (chain[-1] if chain else "?"), tuple(chain[-6:])
 
 
-def execute(world, *, problem=None, solver=None, params=None, reuse_solver=False, x0=None, y0=None, alias=False, keep_callbacks=False):
+def execute(world, *, problem=None, solver=None, params=None, reuse_solver=False, x0=None, y0=None, alias=False, keep_callbacks=False, start_buffers=None):
+    """start_buffers=(xbuf, ybuf): the caller's own start arrays; the values of this solve's start are written into
+    them in place and the very objects are passed to solve() (a caller that re-uses its buffers)."""
     x0_given, y0_given = x0 is not None, y0 is not None
     """Run one solve described by `world`.  `problem`/`solver`/`params` may be
     supplied by history-style profiles that re-use objects across solves."""
@@ -505,6 +507,14 @@ def execute(world, *, problem=None, solver=None, params=None, reuse_solver=False
             for name in obs.get("callbacks", ()):
                 if name == "touch":
                     handles.append(solver.callbacks.register(CallbackType.ComputedStep, _touch))
+                if name == "scribble":
+                    # an observer that re-uses *its own* arrays - the ones the caller passed to solve() - as scratch space
+                    def scribble(it, nit, acc, _ex=ex):
+                        for a_ in (_ex.x0_arg, _ex.y0_arg):
+                            if isinstance(a_, np.ndarray) and a_.flags.writeable and a_.size:
+                                a_[:] = 12345.678
+
+                    handles.append(solver.callbacks.register(CallbackType.ComputedStep, scribble))
                 if name == "oneshot":
                     # an observer that unregisters itself from inside its own notification
                     box = {}
@@ -542,6 +552,10 @@ def execute(world, *, problem=None, solver=None, params=None, reuse_solver=False
 
                     handles.append(solver.callbacks.register(CallbackType.ComputedStep, reenter))
         ex.x0_arg, ex.y0_arg = x0.copy(), y0.copy()
+        if start_buffers is not None and start_buffers[0].shape == x0.shape and start_buffers[1].shape == y0.shape:
+            start_buffers[0][:] = x0
+            start_buffers[1][:] = y0
+            ex.x0_arg, ex.y0_arg = start_buffers
         _CURRENT["ex"] = ex
         if isinstance(solver, RecordingSolver) and getattr(solver.params, "step_solver", None) is None:
             solver.params.step_solver = _recording_step_solver
